@@ -29,8 +29,8 @@ CHECKS = {
              "real evaluate() of all 13 task modules with generators biased to degenerate shapes.",
         note="Proved for the hit-based family and F; entropy-based scores (information gain, NCE/V, NMI, AMI) and the "
              "per-task closed forms not yet covered by a theorem are supported by correspondence and the oracle only "
-             "(listed as unproved sub-claims in the evidence). Known findings: Cemgil > 1, standard_FPR precision > 1, "
-             "pairwise/Rand 0/0, NMI rounding noise.",
+             "(listed as unproved sub-claims in the evidence). Known findings: Cemgil > 1, standard_FPR precision > 1, pairwise/Rand 0/0 (NMI rounding noise was repaired by clipping "
+             "MI at 0; MI >= 0 is proved over the reals).",
         design="§5 C01"),
     "C02": dict(
         text="Lean 4 proof that any non-empty annotation scored against a copy of itself under a criterion that accepts "
@@ -73,7 +73,7 @@ CHECKS = {
              "every permutation of the degree set; regex acceptance vs the grammar is tied by an exhaustive-to-depth "
              "differential (2.99 M labels in the thorough tier) plus mutated strings.",
         note="CHORD_RE itself is not translated: regex = grammar rests on the exhaustive differential and Python's re. "
-             "Known finding: validate_chord_label accepts a valid label followed by one newline.",
+             "The finding (validate_chord_label accepted a valid label followed by one newline) was repaired (CHORD_RE ends with \\Z); acceptance = grammar is now proved without exception.",
         design="§5 C10"),
     "C18": dict(
         text="Lean 4 proofs for every multipitch input: total error = substitution + miss + false alarm, each >= 0, accuracy "
@@ -95,8 +95,8 @@ CHECKS = {
              "directly on the identically pre-processed input for keyword subsets incl. empty annotations.",
         note="The translator (harness/translate/signatures.py, evalprogs.py) is trusted and fails closed on statement "
              "forms outside its subset. Value-level scalar arity of every metric on every input is oracle-checked, "
-             "only the syntactic return shape is proved. Known findings: pattern.evaluate forces 'thresh' (parameter "
-             "is 'thres'); first_n_* / rand_index / ari return 3-tuples on empty input.",
+             "only the syntactic return shape is proved. The findings of this property (pattern.evaluate forced 'thresh' instead of 'thres'; first_n_* / rand_index / ari "
+             "returned 3-tuples on empty input) were repaired by fix: commits; their witnesses are regression inputs.",
         design="§5 C03"),
     "C04": dict(
         text="The Lean model is the executable definition of every event/frame/note metric (beat x6 incl. variations, "
@@ -126,9 +126,9 @@ CHECKS = {
              "merge_labeled_intervals is the common refinement with conserved duration, boundaries<->intervals are "
              "mutually inverse on 5-decimal-exact contiguous segmentations; exhaustive small-scope correspondence in "
              "the thorough tier.",
-        note="Known findings (full statements refuted in Lean, partial theorems proved): zero-length intervals when an "
-             "interval ends exactly at t_min / starts at t_max / all lie before t_min; an internal gap that "
-             "straddles a crop point comes back labelled.",
+        note="Repaired: zero-length intervals when an interval ends exactly at t_min / starts at t_max. Known findings that remain "
+             "(full statements refuted in Lean, partial theorems proved): all intervals before t_min collapse to zero "
+             "length; an internal gap next to a crop point comes back labelled.",
         design="§5 C13"),
     "C14": dict(
         text="Lean 4 proofs for each of the 26 validators (array descriptors): only ok or ValueError can come out "
@@ -138,9 +138,10 @@ CHECKS = {
              "boundary-coincident shapes never raise, one single-fault corruption per documented fault class raises "
              "ValueError / InvalidChordException and nothing else.",
         note="Totality of the metric bodies on valid input is established by the oracle, not by a theorem (except where a "
-             "task slice proves it). NaN and non-array containers are out of scope. Known findings: p_score int(NaN), "
-             "zero-length crop in segment/chord.evaluate, negative multipitch frequency accepted, beat.evaluate "
-             "flattens 2-D input, one-level hierarchies never validated, chord TypeError on a zero-span reference.",
+             "task slice proves it). NaN and non-array containers are out of scope. Repaired: p_score int(NaN), zero-length crop in segment/chord.evaluate on boundary coincidence, beat.evaluate "
+             "flattening 2-D input. Known findings that remain: negative multipitch frequency accepted (repairing it would turn a "
+             "baseline XPASS test into XFAIL), one-level hierarchies never validated, chord TypeError on a zero-span reference, "
+             "estimate entirely outside the reference span.",
         design="§5 C14"),
     "C16": dict(
         text="Lean 4 proofs for label sequences of any length: the code's outer-equality pair counting equals the "
@@ -159,8 +160,8 @@ CHECKS = {
              "window, _gauc equals the brute-force triplet definition and lies in [0,1], lca/meet specs, "
              "tmeasure/lmeasure equal the definition with roles exchanged for precision, parameter rejections; "
              "exact rational correspondence; brute-force triple enumeration oracle.",
-        note="Known finding: tmeasure / lmeasure raise IndexError when a query window holds exactly one frame "
-             "(window == frame_size, or a one-frame track).",
+        note="The finding (tmeasure / lmeasure raised IndexError when a query window holds exactly one frame) was repaired; the "
+             "totality theorems now hold without exception.",
         design="§5 C17"),
     "C19": dict(
         text="PARTIAL. Lean 4 proofs about the logic around an ABSTRACT projection operator: the four components sum to "
@@ -170,9 +171,9 @@ CHECKS = {
              "consistency / NaN masks / arities; the model is run against the real code's own intermediates; the "
              "projection numerics are covered by a numerical oracle only.",
         note="The least-squares projection (_project, _project_images: FFT, Toeplitz solve) is modelled-not-verified; its "
-             "homogeneity is a hypothesis of the scale theorems. Known findings: images-framewise isr uninitialised on "
-             "silent windows, 4 arrays on empty input, image SDR/ISR not scale-invariant, AttributeError on a singular "
-             "system under numpy 2.",
+             "homogeneity is a hypothesis of the scale theorems. Repaired: images-framewise isr uninitialised on silent windows, 4 arrays on empty input, AttributeError on a singular "
+             "system under numpy 2. Known finding that remains: image SDR/ISR are not scale-invariant (by definition of the "
+             "image criteria).",
         design="§5 C19"),
     "C20": dict(
         text="Lean 4 proofs over List Char with abstract token converters, for files of any length: split/join round "
@@ -180,9 +181,8 @@ CHECKS = {
              "skipping column-0 comment lines, wrong column count / unparsable number raise ValueError naming the "
              "1-based row, blank lines are malformed rows, key/tempo single-line and weight-range rules, ragged and "
              "pattern state machines; loaders compared bit-for-bit (struct.pack) from StringIO, path and open file.",
-        note="float(str)/repr(float) and Python's re are trusted; warnings are checked by the oracle only. Known findings: "
-             "load_ragged_time_series(header=True) does not skip the header; load_patterns raises IndexError on a "
-             "one-column data row.",
+        note="float(str)/repr(float) and Python's re are trusted; warnings are checked by the oracle only. The two findings (load_ragged_time_series(header=True) did not skip the header; load_patterns raised IndexError on a "
+             "one-column data row) were repaired.",
         design="§5 C20"),
     "C09": dict(
         text="Lean 4 proofs: pitch_class_to_semitone depends only on (letter + #sharps - #flats) mod 12 for accidental runs "
@@ -218,8 +218,9 @@ CHECKS = {
              "calls, read-only inputs, poisoned np.empty, shuffled call histories).",
         note="The translator's classification table (which NumPy/SciPy/builtin calls allocate, return views or write in "
              "place) is trusted and validated, not verified. Bit-identical repeatability is observed, not modelled. "
-             "Known findings: freq_to_voicing writes the caller's voicing array; adjust_intervals/adjust_events and "
-             "chord.evaluate append to the caller's label list; bss_eval_images_framewise returns uninitialised isr.",
+             "The findings (freq_to_voicing wrote the caller's voicing array; adjust_intervals/adjust_events and chord.evaluate "
+             "appended to the caller's label list; bss_eval_images_framewise returned uninitialised isr) were repaired: safe / "
+             "initOK now hold for every public function (util.intersect_files excepted: beyond the analysis, clean at run time).",
         design="§5 C15"),
 }
 
